@@ -22,6 +22,14 @@ pub const ENTRIES: &[&str] = &[
     "ArcBorrow::with_arc(clone)",
     "Arc::with_raw_offset_arc(clone)",
     "Arc::with_raw_offset_arc(clone_arc)",
+    // Clone::clone_from is a clone entry point too (directly, and through Vec / Option / slice clone_from)
+    "Arc<T>::clone_from",
+    "Arc<[T]>::clone_from",
+    "ThinArc::clone_from",
+    "OffsetArc::clone_from",
+    "ArcUnion(first)::clone_from",
+    "Vec<Arc<T>>::clone_from",
+    "Option<Arc<T>>::clone_from",
     // arc-swap support (only in builds with that feature): ArcSwap::load_full / Guard::into_inner call this
     "RefCnt::inc(Arc)",
     "RefCnt::inc(ThinArc)",
@@ -39,6 +47,7 @@ impl Tr for u64 {
 extern "C" {
     fn _exit(code: i32) -> !;
     fn write(fd: i32, buf: *const u8, n: usize) -> isize;
+    fn close(fd: i32) -> i32;
 }
 
 // ---- interference: "another thread's clone" injected before the k-th atomic step of the clone under test
@@ -133,14 +142,14 @@ pub fn child(args: &[String]) {
     let u1: ArcUnion<u64, u8> = ArcUnion::from_first(Arc::new(7));
     let u2: ArcUnion<u8, u64> = ArcUnion::from_second(Arc::new(8));
     let (addr, c0) = match entry.as_str() {
-        "RefCnt::inc(Arc)" | "Arc<T>::clone" | "ArcBorrow::clone_arc" | "ArcBorrow::with_arc(clone)" | "Arc::with_raw_offset_arc(clone)" | "Arc::with_raw_offset_arc(clone_arc)" => counter_addr(|| Arc::count(&a)),
-        "Arc<[T]>::clone" => counter_addr(|| Arc::count(&s)),
+        "RefCnt::inc(Arc)" | "Arc<T>::clone" | "Arc<T>::clone_from" | "Vec<Arc<T>>::clone_from" | "Option<Arc<T>>::clone_from" | "ArcBorrow::clone_arc" | "ArcBorrow::with_arc(clone)" | "Arc::with_raw_offset_arc(clone)" | "Arc::with_raw_offset_arc(clone_arc)" => counter_addr(|| Arc::count(&a)),
+        "Arc<[T]>::clone" | "Arc<[T]>::clone_from" => counter_addr(|| Arc::count(&s)),
         "Arc<str>::clone" => counter_addr(|| Arc::count(&st)),
         "Arc<dyn>::clone" => counter_addr(|| Arc::count(&d)),
         "Arc<HeaderSlice>::clone" => counter_addr(|| Arc::count(&hs)),
-        "ThinArc::clone" | "ThinArc::with_arc(clone)" | "RefCnt::inc(ThinArc)" => counter_addr(|| t.with_arc(|x| Arc::count(x))),
-        "OffsetArc::clone" | "OffsetArc::clone_arc" | "OffsetArc::with_arc(clone)" => counter_addr(|| o.with_arc(|x| Arc::count(x))),
-        "ArcUnion(first)::clone" => counter_addr(|| u1.as_first().unwrap().with_arc(|x| Arc::count(x))),
+        "ThinArc::clone" | "ThinArc::clone_from" | "ThinArc::with_arc(clone)" | "RefCnt::inc(ThinArc)" => counter_addr(|| t.with_arc(|x| Arc::count(x))),
+        "OffsetArc::clone" | "OffsetArc::clone_from" | "OffsetArc::clone_arc" | "OffsetArc::with_arc(clone)" => counter_addr(|| o.with_arc(|x| Arc::count(x))),
+        "ArcUnion(first)::clone" | "ArcUnion(first)::clone_from" => counter_addr(|| u1.as_first().unwrap().with_arc(|x| Arc::count(x))),
         "ArcUnion(second)::clone" => counter_addr(|| u2.as_second().unwrap().with_arc(|x| Arc::count(x))),
         _ => panic!("unknown entry"),
     };
@@ -188,6 +197,46 @@ pub fn child(args: &[String]) {
         "ArcBorrow::with_arc(clone)" => a.borrow_arc().with_arc(|x| std::mem::forget(x.clone())),
         "Arc::with_raw_offset_arc(clone)" => a.with_raw_offset_arc(|x| std::mem::forget(x.clone())),
         "Arc::with_raw_offset_arc(clone_arc)" => a.with_raw_offset_arc(|x| std::mem::forget(x.clone_arc())),
+        // clone_from into a handle that refers to another allocation
+        "Arc<T>::clone_from" => {
+            let mut dst: Arc<u64> = Arc::new(50);
+            dst.clone_from(&a);
+            std::mem::forget(dst)
+        }
+        "Arc<[T]>::clone_from" => {
+            let mut dst: Arc<[u64]> = Arc::from(vec![5u64]);
+            dst.clone_from(&s);
+            std::mem::forget(dst)
+        }
+        "ThinArc::clone_from" => {
+            let mut dst: ThinArc<u8, u16> = ThinArc::from_header_and_slice(9, &[9]);
+            dst.clone_from(&t);
+            std::mem::forget(dst)
+        }
+        "OffsetArc::clone_from" => {
+            let mut dst: OffsetArc<u64> = Arc::into_raw_offset(Arc::new(60));
+            dst.clone_from(&o);
+            std::mem::forget(dst)
+        }
+        "ArcUnion(first)::clone_from" => {
+            let mut dst: ArcUnion<u64, u8> = ArcUnion::from_second(Arc::new(1u8));
+            dst.clone_from(&u1);
+            std::mem::forget(dst)
+        }
+        "Vec<Arc<T>>::clone_from" => {
+            let src = vec![a.clone()];
+            set_count(addr, start);
+            let mut dst: Vec<Arc<u64>> = vec![Arc::new(51)];
+            dst.clone_from(&src);
+            std::mem::forget((src, dst))
+        }
+        "Option<Arc<T>>::clone_from" => {
+            let src = Some(a.clone());
+            set_count(addr, start);
+            let mut dst: Option<Arc<u64>> = Some(Arc::new(52));
+            dst.clone_from(&src);
+            std::mem::forget((src, dst))
+        }
         #[cfg(feature = "cfg_all")]
         "RefCnt::inc(Arc)" => {
             let _ = <Arc<u64> as arc_swap::RefCnt>::inc(&a);
@@ -222,7 +271,11 @@ pub fn run(_tier: &str) -> Vec<Grid> {
             continue;
         }
         for s in starts {
-            jobs.push((*e, s));
+            jobs.push((*e, s, "piped"));
+        }
+        for s in [im + 1, usize::MAX] {
+            jobs.push((*e, s, "full"));
+            jobs.push((*e, s, "closed"));
         }
     }
     let next = AtomicUsize::new(0);
@@ -235,7 +288,24 @@ pub fn run(_tier: &str) -> Vec<Grid> {
                 if i >= jobs.len() {
                     break;
                 }
-                let o = Command::new(&exe).args(["--child", "c16", "--entry", jobs[i].0, "--start", &jobs[i].1.to_string()]).output().unwrap();
+                let mut cmd = Command::new(&exe);
+                cmd.args(["--child", "c16", "--entry", jobs[i].0, "--start", &jobs[i].1.to_string()]);
+                match jobs[i].2 {
+                    // a standard error stream on which every write fails, or none at all: whatever the
+                    // overflow path prints before it aborts must not turn the abort into something else
+                    "full" => {
+                        cmd.stderr(std::fs::OpenOptions::new().write(true).open("/dev/full").unwrap());
+                    }
+                    "closed" => unsafe {
+                        use std::os::unix::process::CommandExt;
+                        cmd.pre_exec(|| {
+                            close(2);
+                            Ok(())
+                        });
+                    },
+                    _ => {}
+                }
+                let o = cmd.output().unwrap();
                 let code = o.status.code().unwrap_or_else(|| -o.status.signal().unwrap_or(0));
                 out.lock().unwrap().push((i, String::from_utf8_lossy(&o.stdout).to_string(), code));
             });
@@ -244,8 +314,12 @@ pub fn run(_tier: &str) -> Vec<Grid> {
     let mut res = out.into_inner().unwrap();
     res.sort();
     for (i, stdout, code) in res {
-        let (e, s) = jobs[i];
-        let case = format!("[{}] {} with the count at {}", cfg, e, s);
+        let (e, s, errs) = jobs[i];
+        let case = format!("[{}] {} with the count at {}{}", cfg, e, s, match errs {
+            "full" => " (standard error: every write fails)",
+            "closed" => " (standard error closed)",
+            _ => "",
+        });
         let must_abort = s > im;
         let sentinel = stdout.lines().find(|l| l.starts_with("SENTINEL"));
         let caught = stdout.contains("CAUGHT");
@@ -259,7 +333,7 @@ pub fn run(_tier: &str) -> Vec<Grid> {
         } else {
             "other"
         };
-        g.case(format!("{}|{}|{}|{}", cfg, e, if must_abort { "over" } else { "under" }, outcome), || format!("{} -> {}", case, outcome));
+        g.case(format!("{}|{}|{}|{}|{}", cfg, e, if must_abort { "over" } else { "under" }, outcome, errs), || format!("{} -> {}", case, outcome));
         if !ready {
             g.fail("machinery:c16-setup", &case, format!("child did not reach the clone: rc {} out {:?}", code, stdout));
             continue;
@@ -282,7 +356,7 @@ pub fn run(_tier: &str) -> Vec<Grid> {
     }
     // ---- interference grid: another clone lands before the k-th atomic step of the clone under test
     let mut gi = Grid::new(if cfg == "std" { "c16.interference.std" } else { "c16.interference.no_std" }, "starting count in {isize::MAX-1, isize::MAX} x clone entry point x position k in 1..=3 at which a second clone of the same allocation is interleaved (before the k-th atomic step): whenever any increment finds the count already past isize::MAX the process must abort; otherwise both clones return and add one each");
-    let entries: Vec<&str> = ENTRIES.iter().copied().filter(|e| !matches!(*e, "Arc<[T]>::clone" | "Arc<str>::clone" | "Arc<dyn>::clone" | "Arc<HeaderSlice>::clone") && (cfg!(feature = "cfg_all") || !e.starts_with("RefCnt"))).collect();
+    let entries: Vec<&str> = ENTRIES.iter().copied().filter(|e| !matches!(*e, "Arc<[T]>::clone" | "Arc<str>::clone" | "Arc<dyn>::clone" | "Arc<HeaderSlice>::clone" | "Arc<[T]>::clone_from" | "Vec<Arc<T>>::clone_from" | "Option<Arc<T>>::clone_from") && (cfg!(feature = "cfg_all") || !e.starts_with("RefCnt"))).collect();
     let mut jobs2 = vec![];
     for e in &entries {
         for s in [im - 1, im] {
